@@ -752,6 +752,57 @@ def two_messages_possible(buf):
     return bool(m) and m.end() < len(buf)
 
 
+
+# ---------------------------------------------------------------------------------------------- Content-Length that must be refused
+
+_DIGITS = re.compile(rb'^[0-9]+$')
+
+
+def bad_content_length(buf):
+    """Reference reading of the FIRST header block in ``buf`` (bytes received since the last answer): does it carry a
+    Content-Length that no HTTP implementation may accept (RFC 7230 3.3.2: 1*DIGIT; differing values = unrecoverable)?
+
+    Deliberately narrow, so that it never condemns what a server may read differently:
+    * only a complete header block (terminated by CRLF CRLF) that starts with a non-empty first line is read;
+    * any backslash or NUL in the block -> no verdict (circuits documents backslash escapes in header lines);
+    * a field is a line whose name (before the first ':') is exactly ``content-length`` ignoring case, without blanks
+      around the name; its value includes continuation lines (obs-fold);
+    * verdict only if some list element of some value is not 1*DIGIT after trimming blanks, or two elements differ.
+    Returns a short description or None."""
+    end = buf.find(b'\r\n\r\n')
+    if end < 0:
+        return None
+    block = buf[:end]
+    if b'\\' in block or b'\x00' in block or block.startswith(b'\r\n'):
+        return None
+    lines = block.split(b'\r\n')[1:]
+    values = []
+    cur = None
+    for ln in lines:
+        if ln[:1] in (b' ', b'\t'):
+            if cur is not None:
+                cur.append(ln)
+            continue
+        cur = None
+        if b':' not in ln:
+            return None        # not a header block any server must read our way
+        name, val = ln.split(b':', 1)
+        if name.lower() == b'content-length':
+            cur = [val]
+            values.append(cur)
+    if not values:
+        return None
+    elements = []
+    for v in values:
+        for el in b' '.join(v).split(b','):
+            elements.append(el.strip(b' \t'))
+    for el in elements:
+        if not _DIGITS.match(el):
+            return 'Content-Length element %r is not 1*DIGIT' % el
+    if len({int(el) for el in elements}) > 1:
+        return 'conflicting Content-Length values %r' % elements
+    return None
+
 # ---------------------------------------------------------------------------------------------- shape counters (evidence only)
 
 _UNSENDABLE = re.compile('[\x00\r\n]|[^\x00-\xff]')
